@@ -119,8 +119,8 @@ class MultimediaAuthAnswer(MultimediaAuth):
         AvpGenDef("oc_olr", AVP_OC_OLR, type_class=OcOlr),
         AvpGenDef("supported_features", AVP_TGPP_SUPPORTED_FEATURES, VENDOR_TGPP, type_class=SupportedFeatures),
         AvpGenDef("public_identity", AVP_TGPP_PUBLIC_IDENTITY, VENDOR_TGPP, is_required=True),
-        AvpGenDef("sip_number_auth_items", AVP_SIP_NUMBER_AUTH_ITEMS),
-        AvpGenDef("sip_auth_data_item", AVP_SIP_AUTH_DATA_ITEM, type_class=SipAuthDataItem),
+        AvpGenDef("sip_number_auth_items", AVP_TGPP_3GPP_SIP_NUMBER_AUTH_ITEMS, VENDOR_TGPP),
+        AvpGenDef("sip_auth_data_item", AVP_TGPP_3GPP_SIP_AUTH_DATA_ITEM, VENDOR_TGPP, type_class=SipAuthDataItem),
         AvpGenDef("failed_avp", AVP_FAILED_AVP, type_class=FailedAvp),
         AvpGenDef("proxy_info", AVP_PROXY_INFO, type_class=ProxyInfo),
         AvpGenDef("route_record", AVP_ROUTE_RECORD)
@@ -174,8 +174,8 @@ class MultimediaAuthRequest(MultimediaAuth):
         AvpGenDef("oc_supported_features", AVP_OC_SUPPORTED_FEATURES, type_class=OcSupportedFeatures),
         AvpGenDef("supported_features", AVP_TGPP_SUPPORTED_FEATURES, VENDOR_TGPP, type_class=SupportedFeatures),
         AvpGenDef("public_identity", AVP_TGPP_PUBLIC_IDENTITY, VENDOR_TGPP),
-        AvpGenDef("sip_auth_data_item", AVP_SIP_AUTH_DATA_ITEM, type_class=SipAuthDataItem, is_required=True),
-        AvpGenDef("sip_number_auth_items", AVP_SIP_NUMBER_AUTH_ITEMS, is_required=True),
+        AvpGenDef("sip_auth_data_item", AVP_TGPP_3GPP_SIP_AUTH_DATA_ITEM, VENDOR_TGPP, type_class=SipAuthDataItem, is_required=True),
+        AvpGenDef("sip_number_auth_items", AVP_TGPP_3GPP_SIP_NUMBER_AUTH_ITEMS, VENDOR_TGPP, is_required=True),
         AvpGenDef("server_name", AVP_TGPP_SERVER_NAME, VENDOR_TGPP, is_required=True),
         AvpGenDef("sar_flags", AVP_TGPP_SAR_FLAGS, VENDOR_TGPP),
         AvpGenDef("proxy_info", AVP_PROXY_INFO, type_class=ProxyInfo),
